@@ -430,7 +430,7 @@ class Wrapf(util.WrapperMixin):
             fmt_id = fmtmembers[member.name]
             append_format(
                 output,
-                "integer(C_INT), parameter :: {F_enum_member} = {F_value}",
+                "integer(C_INT), parameter ::\t {F_enum_member} =\t {F_value}",
                 fmt_id,
             )
         self.set_f_module(fileinfo.module_use, "iso_c_binding", "C_INT")
